@@ -1,0 +1,19 @@
+//go:build verif
+
+package util
+
+// Contracts checked by /verif (govc). Comment-only file: it adds no code.
+
+//@ ghost func distinctKinds(o KindSortOrder) bool = forall i, j int :: 0 <= i && i < j && j < len(o) ==> o[i] != o[j]
+//@ ghost func knownKind(o KindSortOrder, k string) bool = exists j int :: 0 <= j && j < len(o) && o[j] == k
+
+//@ func lessByKind
+//@   props C08
+//@   requires distinctKinds(o)
+//@   ensures [known-known] forall i, j int :: 0 <= i && i < len(o) && 0 <= j && j < len(o) && o[i] == kindA && o[j] == kindB ==> (result <==> i < j)
+//@   ensures [unknown-last] !knownKind(o, kindA) && knownKind(o, kindB) ==> !result
+//@   ensures [known-first] knownKind(o, kindA) && !knownKind(o, kindB) ==> result
+//@   ensures [unknown-alpha] !knownKind(o, kindA) && !knownKind(o, kindB) ==> (result <==> kindA < kindB)
+//@   loop 1 invariant [dom] forall k string :: has(ordering, k) ==> 0 <= ordering[k] && ordering[k] < #iter && o[ordering[k]] == k
+//@   loop 1 invariant [cover] forall j int :: 0 <= j && j < #iter ==> has(ordering, o[j])
+//@   loop 1 invariant [nonnil] ordering != nil
